@@ -502,7 +502,21 @@ impl Session<'_> {
                         // Nothing to do.
                     }
                     CurrentSessionId::ToBeRenamed { old, new } => {
-                        self.store.change_id(&old, &new).await?;
+                        match self.store.change_id(&old, &new).await {
+                            Ok(_) => {}
+                            Err(ChangeIdError::UnknownId(_))
+                                if state_config.server_state_creation
+                                    == ServerStateCreation::SkipIfEmpty =>
+                            {
+                                // A session whose server-side state is empty has no record
+                                // in the store under this policy: there is nothing to rename.
+                                // The client is handed the new id, and there is still no
+                                // record attached to it.
+                            }
+                            Err(e) => {
+                                return Err(e.into());
+                            }
+                        }
                     }
                     CurrentSessionId::NewlyGenerated(..) => {
                         unreachable!(
